@@ -38,7 +38,25 @@ for a in small:
             triples += 1
             if val[(b, c)] <= 0 and val[(a, c)] > 0:
                 print(json.dumps({"violation": "not transitive", "a": a, "b": b, "c": c})); sys.exit(1)
-# (summary printed at the end)
+# long structured versions (the property names multi-digit numbers, leading zeros, several segments, separators, markers): every
+# concatenation of <= 3 tokens from a fixed token set, all pairs - still bounded, but beyond any short-string enumeration
+TOKENS = ["1", "10", "010", "9", "0000000010", "00000000010", "12345678901", "1234567890", "0000000001", "a", "ab", "B", ".", "-", "_", "~", "^", "é", "rc1", "00"]
+longs = set()
+for n in (1, 2, 3):
+    for t in itertools.product(TOKENS, repeat=n):
+        longs.add("".join(t))
+longs = sorted(longs)
+import random
+rnd = random.Random(int(os.environ.get("VERIF_SEED", "0")))
+lpairs = [(a, b) for a in longs[::7] for b in longs[::11]] + [(rnd.choice(longs), rnd.choice(longs)) for _ in range(40000)]
+for a, b in lpairs:
+    r = _rpm_vercmp(a, b)
+    pairs += 1
+    if r != S(a, b):
+        print(json.dumps({"violation": "real != S (long structured versions)", "a": a, "b": b, "real": r, "spec": S(a, b), "pairs": pairs}))
+        sys.exit(1)
+    if r != -_rpm_vercmp(b, a):
+        print(json.dumps({"violation": "not antisymmetric (long structured versions)", "a": a, "b": b})); sys.exit(1)
 
 
 # ---------------------------------------------------------------- packages: epoch / version / release composition, the six operators, max / min
